@@ -169,6 +169,43 @@ func (m *KVMon[K, V]) Clear() {
 	m.after(zk, true)
 }
 
+// Reload serialises the container and loads the document back into the same
+// container: a no-op on the abstract map that rebuilds the whole internal
+// structure by another route (bulk builders, sorted-input shortcuts). What the
+// reloaded structure is worth shows in the calls that follow. Only for key
+// types encoding/json can write as object keys; a failing ToJSON or FromJSON
+// is the business of C11/C12 and ends the attempt quietly.
+func (m *KVMon[K, V]) Reload() {
+	switch any(*new(K)).(type) {
+	case int, string:
+	default:
+		return
+	}
+	if m.A.JSON == nil {
+		return
+	}
+	data, err := m.A.JSON.ToJSON()
+	if err != nil {
+		return
+	}
+	m.c.Begin(m.A.Name, "FromJSON(own ToJSON)", len(data))
+	if m.A.Count != nil {
+		*m.A.Count = -1 << 40 // n insertions: no per-call bound applies
+	}
+	err = m.A.JSON.FromJSON(data)
+	m.resetCount()
+	if err != nil {
+		m.c.Count("obs:reload-refused", 1)
+		return
+	}
+	m.c.Count("obs:reload-own-json", 1)
+	var zk K
+	if m.n() > 0 {
+		zk = m.Mod.Ents[m.c.R.Intn(m.n())].Key
+	}
+	m.after(zk, true)
+}
+
 func (m *KVMon[K, V]) checkGet(k K) {
 	v, ok := m.A.M.Get(k)
 	wv, wok := m.Mod.Get(k)
